@@ -222,6 +222,28 @@ func runC17(c *core.Ctx) {
 			c17Judge(c, "round", a, c17Operand{st: ref.OK, rat: big.NewRat(int64(p), 1), isI: true}, true, res, gen.Describe(ga), fmt.Sprint(p))
 		}
 	}
+	// ---- the optional operand of round: a string that does not spell a number is an error there as well ----------------
+	if c.Shard == 9%c.NShards && c.Begin("round with a non-numeric places operand") {
+		for _, recv := range []any{2.567, 7, "2.5", float32(1.25), -3.14159} {
+			for _, places := range []any{"two", "x", "", "1e", "nan", "-", "1.2.3", []any{1}, map[string]any{"a": 1}} {
+				res := core.Render(tpls["round"], map[string]any{"a": recv, "b": places})
+				lit := core.Res{IsErr: true}
+				if ps, ok := places.(string); ok {
+					lit = core.Run(e, fmt.Sprintf("{{ %v | round: %q }}", recv, ps), nil)
+					if _, isStr := recv.(string); isStr {
+						lit = core.Run(e, fmt.Sprintf("{{ %q | round: %q }}", recv, ps), nil)
+					}
+				}
+				c.Eval(2)
+				c.Obs("round_bad_places_cases", 1)
+				c.Distinct("roundbad", fmt.Sprint(recv), fmt.Sprint(places))
+				if !res.Failed() || !lit.Failed() {
+					c.Violate("non-numeric-operand|round-places", "a string (or collection) operand that does not spell a number must be reported as an error, not replaced by a default",
+						map[string]any{"a": gen.Describe(recv), "places": gen.Describe(places), "observed_variable": res.Brief(), "observed_literal": lit.Brief()})
+				}
+			}
+		}
+	}
 	c17Chains(c, e)
 	c17Float32(c, e)
 }
